@@ -60,6 +60,9 @@ CHECKS = {
   "C06": ("Hypothesis vs reference model (diffeq_ref with per-sample coefficient lookup on element-wise combined coefficient sequences), counting sources for pull accounting",
           "Filter shapes with any subset of coefficients (a[0] included) replaced by finite, periodic or constant Streams over counting sources, built by three routes; sums, differences, products, scalings, delays and a self-product sharing Streams: every output must equal the time-varying difference equation exactly, the output must end cleanly with the shortest of input and coefficient streams, and every source must have been read exactly once per output. Sampled.",
           "Values are Q; sums use structurally different (or constant-equal) denominators so the documented cross-multiplied form applies; numerators are never identically zero (that annihilates the streams they multiply).", "3/C06"),
+  "C09": ("Hypothesis vs reference model (ola_ref: the defining windowed hop-shifted sum in Fractions), round trip (blocks -> overlap-add with constructed sum-to-one windows), recorded-wiring oracle for the stft wrapper",
+          "overlap_add.list over all block counts incl. 0, hop <= size, seven window kinds (negative and zero entries), normalise on/off/default, given or detected size and six block container kinds is compared sample by sample with the defining sum and the stated gain; signals blocked by Stream.blocks and overlap-added with windows constructed to sum to one are reconstructed exactly on fully covered samples; stft: blocks reaching the user function == window x block, stage order, ola_ options stripped and forwarded, build/call-time option split and override, calling styles, refusals. Sampled.",
+          "Q samples; no-window gain is the code's double 1/ceil(size/hop); only the pure-Python overlap_add.list strategy (numpy absent).", "3/C09"),
 }
 NOT_BUILT = "check not built yet in this session (planned in DESIGN.md section 3); no claim is made until it is"
 
